@@ -192,7 +192,22 @@ def run(ctx):
             return
 
 
+_run_core = run
+
+
+def run(ctx):
+    _run_core(ctx)
+    if ctx.n_new() == 0 and ctx.driver_ok:
+        from harness.common import run_demo
+        if ctx.n_new() == 0:
+            run_demo(ctx, 'demo_graphio.py', [1 + ctx.seed], 'c12-bfs-order-vs-model',
+                     'compute_bfs_ordering / message passing of explicitly given trees against the model')
+
+
 def replay(rep):
+    if rep['replay'].get('kind') == 'demo':
+        from harness.common import replay_demo
+        return replay_demo(rep['replay'])
     r = rep['replay']
     clt = BinaryCLT(r['scope'], root=r['scope'][r['pred'].index(-1)], tree=r['pred'], params=np.array(r['params'], dtype=np.float32))
     try:
